@@ -798,3 +798,54 @@ Proof.
   rewrite first_bad_false by (intros k; apply after_cancel). reflexivity.
 Qed.
 
+(* corollaries around 0, 2^23 and 2^24-1 (within 128 s) *)
+Ltac dec_cmp :=
+  rewrite ?Z.gtb_ltb;
+  repeat match goal with |- context [?a <? ?b] => destruct (Z.ltb_spec a b) end;
+  cbn [andb orb]; try reflexivity; try lia.
+
+Lemma wrap_instances t1 t2 : t2 - t1 <= rfc_128s ->
+  valid (2 ^ 24 - 1) 0 t1 t2 = true /\ valid (2 ^ 24 - 1) 3 t1 t2 = true /\
+  valid 0 (2 ^ 24 - 1) t1 t2 = false /\ valid 3 (2 ^ 24 - 1) t1 t2 = false /\
+  valid 0 1 t1 t2 = true /\ valid 1 0 t1 t2 = false /\
+  (forall v, 0 <= v -> v + 2 ^ 23 < 2 ^ 24 ->
+     valid v (v + 2 ^ 23 - 1) t1 t2 = true /\ valid (v + 2 ^ 23 - 1) v t1 t2 = false /\
+     valid v (v + 2 ^ 23) t1 t2 = false /\ valid (v + 2 ^ 23) v t1 t2 = false) /\
+  (forall v, 0 <= v -> v + 2 ^ 23 + 1 < 2 ^ 24 ->
+     valid (v + 2 ^ 23 + 1) v t1 t2 = true /\ valid v (v + 2 ^ 23 + 1) t1 t2 = false).
+Proof.
+  intros Ht. change (2 ^ 24) with 16777216. change (2 ^ 23) with 8388608.
+  repeat split; intros;
+    (rewrite valid_rfc by (change (2 ^ 24) with 16777216; lia)); unfold rfc_fresh; change (2 ^ 23) with 8388608; dec_cmp.
+Qed.
+
+(* sequence numbers decoded from a datagram are below 2^24 when the option bytes are bytes *)
+Lemma observe_wire_range m v :
+  match m_obs m with Some bs => bytes_ok bs = true | None => True end ->
+  observe_wire m = Some v -> 0 <= v < 2 ^ 24.
+Proof.
+  unfold observe_wire. destruct (m_obs m) as [bs|]; [|discriminate]. intros Hb.
+  destruct ((ObserveMinLen <=? blen bs) && (blen bs <=? ObserveMaxLen)) eqn:E; [|discriminate].
+  intros H. inversion H; subst v; clear H.
+  apply andb_true_iff in E. destruct E as [_ E]. apply Z.leb_le in E. change ObserveMaxLen with 3 in E.
+  unfold blen in E. change (2 ^ 24) with 16777216.
+  destruct bs as [|a [|b [|c [|d r]]]]; cbn [length] in E; try lia;
+    unfold bytes_ok in Hb; cbn [forallb] in Hb;
+    repeat (apply andb_true_iff in Hb; destruct Hb as [?Hx Hb]);
+    unfold byte_ok in *;
+    repeat match goal with Hx : (_ <=? _) && (_ <? _) = true |- _ =>
+      apply andb_true_iff in Hx; destruct Hx as [?Hl ?Hu]; apply Z.leb_le in Hl; apply Z.ltb_lt in Hu end;
+    cbn [be fold_left]; lia.
+Qed.
+
+Lemma wire_wf evs :
+  Forall (fun e => match e with
+                   | EMsg m _ => match m_obs m with Some bs => bytes_ok bs = true | None => True end
+                   | _ => True end) evs ->
+  wf_evs observe_wire evs.
+Proof.
+  intros H. unfold wf_evs. eapply Forall_mono_in; [|exact H].
+  intros e He. destruct e as [|m now|]; cbn [wf_ev]; try exact I.
+  destruct (observe_wire m) as [v|] eqn:E; [|exact I].
+  pose proof (observe_wire_range m v He E) as Hr. change (2 ^ 24) with 16777216 in Hr. change (2 ^ 32) with 4294967296. lia.
+Qed.
